@@ -1,4 +1,5 @@
 import GitSizer.Driver.Graph
+import GitSizer.Model.ScanCheck
 /-! Engine `e2e`: generated repositories written as real git repositories (loose / repacked /
     gc'ed, adversarial commit dates), scanned by the real `git-sizer` binary. The JSON numbers are
     judged against the specification evaluated on the reachable set of the chosen roots; every
@@ -24,17 +25,30 @@ def e2eEngine : Engine := fun inp obs =>
       | "fail" :: code :: _ => .viol "C01,C10,C19" s!"git-sizer failed (exit {code}) or wrote an unparsable report on a valid repository"
       | ["ok", numS, witS, _grpS, revS, stderrEmpty] =>
         -- contract of git: rev-list lists exactly the closure, children before parents
+        let listing : Option (List Nat) := if roots.isEmpty then some [] else
+          match revS.splitOn ";" with
+          | [l, _] => parseIdxList l "."
+          | _ => none
         let contract : Option String :=
           if roots.isEmpty then none else
-          match revS.splitOn ";" with
-          | [l, topo] =>
-            match parseIdxList l "." with
-            | some listed => if listed != D then some s!"rev-list listed {listed}, closure is {D}" else if topo != "1" then some "rev-list listed a parent before its child" else none
-            | none => some "rev-list output"
-          | _ => some "rev-list failed"
+          match revS.splitOn ";", listing with
+          | [_, topo], some listed =>
+            if (listed.toArray.qsort (· < ·)).toList != D then some s!"rev-list listed {listed}, closure is {D}"
+            else if topo != "1" then some "rev-list listed a parent before its child" else none
+          | _, _ => some "rev-list failed"
         if let some why := contract then .bad s!"assumed contract of git rev-list does not hold: {why}" else
         let nums := (numS.splitOn ",").map (fun x => x.toNat?.getD 0)
         let spec := specNumbers r D nrefs
+        -- the whole-scan theorem applies to this very case iff its (soundly) decided hypotheses hold:
+        -- then the model's scan of git's own listing is proved to give the clamped truth
+        let L := listing.getD []
+        let thm := Scan.scanHypothesesb r L
+        let modelNums : Option (List Nat) :=
+          match Scan.scan r L (List.replicate nrefs []) with
+          | .ok h => some (histNumbers h)
+          | _ => none
+        if thm && modelNums != some spec then
+          .bad s!"the whole-scan theorem's closed form and the judge's census disagree: model {modelNums}, census {spec}" else
         let bad := (List.range spec.length).filter fun i => nums.getD i 0 != spec.getD i 0
         if let some i := bad.head? then
           .viol (unionProps (bad.map fieldProp)) (", ".intercalate (bad.map fun i => s!"{fieldNames.getD i "?"} = {nums.getD i 0}, specification over the reachable set = {spec.getD i 0}"))
@@ -69,7 +83,8 @@ def e2eEngine : Engine := fun inp obs =>
         if let some why := wbad.head? then
           (if lossy && wbad.all (fun w => w.endsWith "does not resolve to the cited object") then .known "F18" why else .viol "C08" why)
         else if stderrEmpty != "1" then .viol "C18,C10" "a successful run with --no-progress wrote to stderr"
-        else .ok
+        else if modelNums != some nums then .diff (toString modelNums) "model scan of git's listing differs from the implementation"
+        else .ok (if thm then "thm" else "")
       | _ => .bad "observed fields"
     | _, _ => .bad "decode"
   | _ => .bad "arity"
